@@ -1,7 +1,7 @@
 (* Proofs/C07_rv.v — C07: the exported read/write flags of the riscv classes (Gen/Tab_rv_rw.v, aligned with
    C08's table_riscv) against the ISA semantics, by reflection over the table. *)
 From PV Require Import Lib.Py Lib.Tac Model.Encode Spec.RV32Decode Spec.RV32Exec Model.RvRW
-  Gen.Tab_isa_riscv Gen.Tab_rv_rw Proofs.C08_rv Proofs.C07_exec.
+  Gen.Tab_isa_riscv Gen.Tab_rv_rw Proofs.C08_rv Proofs.C08_rvfull Proofs.C07_exec.
 From Coq Require Import String.
 Open Scope Z_scope.
 Open Scope list_scope.
@@ -219,6 +219,22 @@ Theorem rv_rw_sound_bounded n d c e :
 Proof.
   intros Hd Hc Hb Hb8 He Hf ops Hin.
   destruct (rv_reference_bounded n d e Hd Hb8 He ops Hin) as (_ & bytes & Henc & Hdec).
+  destruct (rv_rw_sound n d c e Hd Hc Hb He Hf ops bytes Hdec) as (i & Hi & HF & HR).
+  exists bytes, i. auto.
+Qed.
+
+(* composed with C08's UNBOUNDED reference agreement (Proofs/C08_rvfull.rv_reference): unconditional for every
+   covered class and ALL in-range operands *)
+Theorem rv_rw_sound_full n d c e :
+  nth_error table_riscv n = Some d -> nth_error rw_riscv n = Some c -> ~ In n rw_bad_riscv ->
+  ~ In n (map fst rvref_bad_riscv) ->
+  rv_expectation d = Some e -> assoc_fmt rv_formats (fst e) <> None ->
+  forall ops, in_range d ops = true ->
+  exists bytes i, encode_instr d ops = Ok bytes /\ decode_instr bytes = Some i /\
+            frame_ok i (defined_registers c ops) /\ reads_ok i (used_registers c ops).
+Proof.
+  intros Hd Hc Hb Hb8 He Hf ops Hin.
+  destruct (rv_reference n d e Hd Hb8 He ops Hin) as (bytes & Henc & Hdec).
   destruct (rv_rw_sound n d c e Hd Hc Hb He Hf ops bytes Hdec) as (i & Hi & HF & HR).
   exists bytes, i. auto.
 Qed.
